@@ -400,6 +400,8 @@ class Registry:
         self.extra_member = {}      # (model kind, name) -> handler
 
     def key_ops(self, em, key):
+        if key.kind == 'ptr':
+            return 'CM_LT_APPEND', 'CM_EQ_SCALAR'
         if scalar(key):
             return 'CM_LT_SCALAR', 'CM_EQ_SCALAR'
         if key.kind == 'name' and key.name == 'std::string':
